@@ -139,6 +139,9 @@ func (k Keeper) fulfillBetByParticipationQueue(
 				}
 				for _, exposure := range eUpdate {
 					k.SetParticipationExposure(ctx, exposure)
+					// a fulfilled exposure must not stay in the queue of its odds, otherwise the
+					// participation is listed twice there after its next re-queue.
+					k.removeFromFulfillmentQueue(ctx, exposure.OrderBookUID, exposure.OddsUID, exposure.ParticipationIndex)
 				}
 			}
 		}
